@@ -79,7 +79,8 @@ def gen_config(rng, scenario="scenario1_small"):
     ms_att = rng.choice([1, 2, 3, 4, 6, 8, None, 0])
     ms_def = rng.choice([None, None, 2, 5])
     rewards = rng.choice([{"step": -1, "success": 100, "fail": -10}, {"step": 0, "success": 7, "fail": -3},
-                          {"step": -2, "success": 50}, {}, {"step": 1, "success": 0, "fail": 5}])
+                          {"step": -2, "success": 50}, {}, {"step": 1, "success": 0, "fail": 5},
+                          {"success": 70, "fail": -7}, {"step": -1, "fail": -10}, {"fail": -4}])
     goal_kind = rng.choice(["data", "known_host", "controlled", "network", "trivial", "services", "blocks", "data2", "blocks2", "blocks2r", "hosts2"])
     goal = {"known_networks": [], "known_hosts": [], "controlled_hosts": [], "known_services": {}, "known_data": {}, "known_blocks": {}}
     if goal_kind == "data":
@@ -107,8 +108,9 @@ def gen_config(rng, scenario="scenario1_small"):
     dgoal = {"known_networks": [], "known_hosts": [], "controlled_hosts": [], "known_services": {}, "known_data": {}, "known_blocks": {}}
     if rng.random() < 0.3:
         dgoal["known_blocks"] = {"192.168.1.2": ["192.168.2.2"]}
+    start_data = {"192.168.2.2": [["User1", "StartData"]]} if ("192.168.2.2" in start_ctrl and rng.random() < 0.4) else {}
     att = {"goal": dict(goal, description="goal"), "start_position": {"known_networks": [], "known_hosts": [], "controlled_hosts": start_ctrl,
-                                                                      "known_services": {}, "known_data": {}, "known_blocks": {}}}
+                                                                      "known_services": {}, "known_data": start_data, "known_blocks": {}}}
     if ms_att is not None:
         att["max_steps"] = ms_att
     dfd = {"goal": dict(dgoal, description="defend"), "start_position": {"known_networks": [], "known_hosts": [], "controlled_hosts": rng.choice([["192.168.1.2"], ["192.168.1.2", "192.168.2.2"], ["all_local"]]),
@@ -185,9 +187,17 @@ class Session:
         self._install_wrappers()
         drv.ask({"op": "tables", "tables": defender_tables})
         self.settings = settings_of(self.coord)
+        want = {k: (cfg.get("env", {}).get("rewards") or {}).get(k, 0) for k in ("step", "success", "fail")}
+        got = {k: self.coord._rewards.get(k) for k in ("step", "success", "fail")} if getattr(self.coord, "_rewards", None) is not None else None
+        if got is not None and got != want:
+            fail({"C05", "C19"}, "rewards-not-as-configured", f"the game uses rewards {got} but the configuration says {want} (absent = 0)", {"kind": "config", "config": cfg})
         drv.ask({"op": "coord_init", "settings": self.settings})
         self.model_state = None
         self.broken = False
+        self.diverged = False
+        self.world0 = None
+        self.focus = stats.get("focus")
+        self.ignored_fields = set()
 
     # ---------------------------------------------------------------- instrumentation (harness side only)
     def _install_wrappers(self):
@@ -254,7 +264,17 @@ class Session:
             if c.task.done():
                 ph = "closed"
             elif cid in self.awaiting:
-                ph = "awaiting"
+                # which barrier the unanswered request waits at, read off the coordinator's own tables
+                k = self.awaiting[cid].get("k")
+                addr = PEER(cid)
+                if k == "join":
+                    ph = "parked:joinStart"
+                elif k == "game":
+                    ph = "parked:gameEnd"
+                elif k == "reset":
+                    ph = "parked:resetWait" if co._reset_requests.get(addr) else "parked:resetStart"
+                else:
+                    ph = "awaiting"
             else:
                 ph = "reading"
             conns.append([cid, ph])
@@ -272,7 +292,7 @@ class Session:
                               "traj_len": len(a["traj"]), "traj_rewards": [t["reward"] for t in a["traj"]], "traj_states": len(a["traj"]) + 1}])
         conns = []
         for cid, ph in sorted(ms["conns"]):
-            ph = "awaiting" if ph.startswith("parked") else ("closed" if ph in ("closed", "absent") else ph)
+            ph = "closed" if ph in ("closed", "absent") else ph
             conns.append([cid, ph])
         return {"slots": ms["slots"], "ids": ms["ids"], "startEv": ms["startEv"], "agents": ags, "conns": conns}
 
@@ -322,6 +342,33 @@ class Session:
         fr = Fraction(self.roll)
         return {"stepView": o.get("stepView") if o.get("stepCalled") else None, "initView": o.get("initView"),
                 "resetView": [[c, v] for c, v in sorted(self.oracle.get("reset", {}).items())], "roll": [fr.numerator, fr.denominator]}
+
+    def _oracle_only(self, evs, gaps):
+        """after model and implementation have diverged: the session goes on on the real side only, judged by the
+        oracles written from the property statements (answered exactly once, documented barriers, bonus once ...)"""
+        before = None
+        applied = []
+        for ev, gap in zip(evs, gaps):
+            mes = self._apply_real(ev)
+            if mes is None:
+                continue
+            log = {k: v for k, v in ev.items() if k not in ("raw_bytes", "action")}
+            if "raw_bytes" in ev:
+                log["raw_hex"] = ev["raw_bytes"].hex()
+            self.events.append(log)
+            applied.append(ev)
+            if gap:
+                self.sim.run_iterations(gap)
+        if not applied:
+            return
+        self.sim.settle()
+        real_outs = self.parse_real_outputs()
+        self._book(real_outs)
+        for c in [c for c in self.pending_leave if self.sim.conns[c].task.done()]:
+            del self.pending_leave[c]
+        self.stats["oracle_only_events"] = self.stats.get("oracle_only_events", 0) + 1
+        ev0 = applied[0] if len(applied) == 1 else {"t": "burst", "c": applied[0]["c"], "kinds": [(e["m"]["k"] if e["t"] == "msg" else e["t"]) for e in applied]}
+        self.after_event(ev0, before, real_outs)
 
     def _apply_real(self, ev):
         """feeds one event into the real coordinator WITHOUT settling; returns the model events it stands for"""
@@ -411,6 +458,8 @@ class Session:
         for at least one sequential order of the events (linearizability w.r.t. the proved sequential model)."""
         if self.broken:
             return
+        if self.diverged:
+            return self._oracle_only(evs, gaps)
         import itertools
         self.oracle = {}
         self.roll = evs[0].get("roll", 0.5)
@@ -483,8 +532,13 @@ class Session:
                 sig = "schedule:" + sig
                 desc = f"events {ev0['kinds']} arriving in the same run of the event loop (gaps {list(gaps)}): no sequential order of them explains the outcome; for the order as sent: " + desc
             self.fail(tags, sig, desc, self.replay())
-            if sig.split(":")[0] in ("outputs", "state", "agent", "schedule"):
-                self.broken = True
+            head = sig.split(":")[0]
+            if head in ("outputs", "state", "schedule") or (head == "agent" and (self.focus is None or self.focus in tags)):
+                # from here on the model no longer describes this session; a disagreement in a per-agent field that is
+                # outside the focus property's scope is recorded once and the comparison goes on
+                self.diverged = True
+            elif head == "agent":
+                self.ignored_fields.add(sig.split(":")[1])
         self.after_event(ev0, before, real_outs)
 
     # ---------------------------------------------------------------- comparison (pure) + oracles
@@ -542,7 +596,8 @@ class Session:
                         out.append(({"C15", "C12", "C07" if o.get("code") == "RESET_DONE" else "C04"}, f"view:{o.get('code')}",
                                     f"{o.get('code')} reply to {c}: the view sent differs from the view the model (fed with the world's own results) holds"))
                     if o["obs"]["reward"] != mob["reward"]:
-                        out.append(({"C05"} | ({"C07"} if o.get("code") == "RESET_DONE" else set()) | ({"C06"} if o["obs"]["end"] else set()) | ({"C12"} if c != cid else set()), f"reward:{o.get('code')}:{kind}",
+                        out.append(({"C05"} | ({"C07"} if o.get("code") == "RESET_DONE" else set()) | ({"C06"} if o["obs"]["end"] else set()) | ({"C12"} if c != cid else set())
+                                    | ({"C17"} if "Fail" in (o["obs"]["reason"], mob["reason"]) else set()), f"reward:{o.get('code')}:{kind}",
                                     f"{o.get('code')} reply to {c}: reward {o['obs']['reward']} but the reward rule gives {mob['reward']}"))
                     if o["obs"]["end"] != mob["end"] or o["obs"]["reason"] != mob["reason"]:
                         out.append(({"C04"} | ({"C17"} if "Fail" in (o["obs"]["reason"], mob["reason"]) else set()), f"end:{o.get('code')}:{o['obs']['end']},{o['obs']['reason']}|{mob['end']},{mob['reason']}",
@@ -564,7 +619,7 @@ class Session:
         return out
 
     def diff_state(self, kind, cid, rs, mc):
-        tags_for = {"slots": {"C18"}, "ids": {"C10", "C06"}, "startEv": {"C06"}, "conns": {"C01", "C18"}}
+        tags_for = {"slots": {"C18"}, "ids": {"C10", "C06"}, "startEv": {"C06"}, "conns": {"C01", "C18", "C06", "C07"}}
         for f in ("slots", "ids", "startEv", "conns"):
             if rs[f] != mc[f]:
                 tags = set(tags_for[f])
@@ -575,10 +630,12 @@ class Session:
                 return [(tags, f"state:{f}:{kind}", f"after {kind} on {cid}: coordinator {f} = {rs[f]}, model {mc[f]}")]
         ra, ma = dict((c, a) for c, a in rs["agents"]), dict((c, a) for c, a in mc["agents"])
         field_tags = {"view": {"C12", "C07"}, "steps": {"C04", "C07"}, "status": {"C04"}, "ended": {"C04", "C06"},
-                      "resetReq": {"C07"}, "reward": {"C05"}, "paid": {"C05"}, "obs": {"C15", "C04"},
+                      "resetReq": {"C07"}, "reward": {"C05", "C06"}, "paid": {"C05", "C06"}, "obs": {"C15", "C04"},
                       "traj_len": {"C16"}, "traj_rewards": {"C16"}, "traj_states": {"C16"}, "name": {"C19"}, "role": {"C19"}}
         for c in ra:
             for f, tg in field_tags.items():
+                if f in self.ignored_fields or (f.startswith("traj") and "traj_len" in self.ignored_fields):
+                    continue
                 if ra[c][f] != ma[c][f]:
                     tags = set(tg)
                     if kind == "bad":
@@ -620,6 +677,18 @@ class Session:
                     S["final_observations"] = S.get("final_observations", 0) + 1
                     if self.bonus_seen[k] > 1:
                         self.fail({"C04", "C05"}, "two-finals", f"connection {c} received two final observations in one episode", self.replay())
+        # C08: every completed reset (static addresses) must leave the world in its initial condition
+        co = self.coord
+        if self.world0 is None and co._ip_to_hostname and not any(co._agent_steps.values()) and not co._fw_blocks:
+            self.world0 = C.canon_worlddyn(C.worlddyn2j(co))
+        if self.world0 is not None and not co.task_config.get_use_dynamic_addresses() and any(o.get("code") == "RESET_DONE" for o in real_outs):
+            S["resets_done"] = S.get("resets_done", 0) + 1
+            if not any(co._agent_steps.values()):       # nobody has acted in the new episode yet
+                now = C.canon_worlddyn(C.worlddyn2j(co))
+                if now != self.world0:
+                    d = C.diff_canon(now, self.world0)
+                    self.fail({"C08"}, "world-not-restored:" + ",".join(d), f"after a completed reset the world tables {d} are not in their initial condition (after {kind} on {cid})", self.replay())
+                    self.world0 = now
         rs = self.real_state()
         missing = {"run_game", "_assign_rewards_episode_end", "_reset_game"} - set(rs["tasks_alive"])
         if missing:
@@ -721,6 +790,10 @@ class Script:
         r = rng.random()
         # connections
         if (not live) or (len(live) < req and r < 0.5) or r < p.get("extra_connect", 0.03):
+            # a new connection; sometimes from a peer address whose earlier connection is closed (address reuse)
+            closed = [c for c in sorted(s.sim.conns) if s.sim.conns[c].task.done() and c not in s.awaiting and c not in s.pending_leave]
+            if closed and rng.random() < p.get("reuse", 0.3):
+                return {"t": "connect", "c": rng.choice(closed), "reuse": True}
             cid = s.next_cid
             s.next_cid += 1
             return {"t": "connect", "c": cid}
@@ -768,6 +841,17 @@ class Script:
             tr = rng.random() < 0.5
             return {"t": "msg", "c": cid, "m": {"k": "reset", "traj": tr}, "raw_bytes": J(ActionType.ResetGame, request_trajectory=tr)}
         a = self.game_action(cid)
+        if rng.random() < p.get("unprocessable", 0.06):
+            # decodable, but the world cannot process it (an unhashable data field): must be refused without any effect
+            view = s.coord._agent_states.get(addr)
+            srcs = [h for h in sorted(view.controlled_hosts, key=str) if view.known_data.get(h)] if view is not None else []
+            if srcs:
+                src = rng.choice(srcs)
+                tgt = rng.choice(sorted(view.controlled_hosts, key=str))
+                raw = json.dumps({"action_type": "ActionType.ExfiltrateData", "parameters": {"source_host": {"ip": str(src)}, "target_host": {"ip": str(tgt)},
+                                  "data": {"owner": ["not", "hashable"], "id": "d"}}}).encode()
+                k = ["ExfiltrateData", s.keys.setdefault("unhashable:%s:%s" % (src, tgt), len(s.keys))]
+                return {"t": "msg", "c": cid, "m": {"k": "game", "act": k}, "raw_bytes": raw, "roll": 0.9, "note": "unprocessable"}
         if rng.random() < p.get("goal_push", 0.0):
             a = Action(ActionType.ScanNetwork, {"source_host": IP("192.168.2.2"), "target_network": Network("192.168.1.0", 24)})
         roll = rng.choice([0.0, 0.01, 0.03, 0.2, 0.9, rng.random()])
@@ -783,6 +867,10 @@ def run_sessions(drv, rng, defender_tables, on_fail, stats, n_sessions, n_events
             prof["roles"] = ["Attacker", "Attacker", "Defender"]
         else:
             cfg = cfg_gen(rng)
+        for k, v in (prof.get("force_env") or {}).items():
+            cfg["env"][k] = v
+        if prof.get("attacker_max_steps"):
+            cfg["coordinator"]["agents"]["Attacker"]["max_steps"] = rng.choice(prof["attacker_max_steps"])
         label = f"session#{si}"
         def fail(tags, sig, desc, rep, _label=label):
             on_fail(tags, sig, desc, rep)
